@@ -73,13 +73,24 @@ def step (_ : Unit) (line : String) : Unit × String :=
           | .lin g, .global | .lin g, .semi =>
             let np := nPaths mode gap M a b
             if np > 300 then true else
-            let tbl := fillLin mode M g a b
-            let V : Nat → Nat → Int := fun i j => (tbl.getD i []).getD j 0
-            let model := tracesLin mode M g a b V np
+            let model := tracesLin mode M g a b (tableLookup (fillLin mode M g a b)) np
             model.length == np && alns.all fun o => match o with
               | some aln => model.contains aln
               | none => false
-          | _, _ => true
+          | .lin g, .local =>
+            let np := nPaths mode gap M a b
+            if np > 300 then true else
+            let model := tracesLocalLin M g a b (tableLookup (fillLin .local M g a b)) np
+            model.length == np && alns.all fun o => match o with
+              | some aln => model.contains aln
+              | none => false
+          | .aff go ge, _ =>
+            let np := nPaths mode gap M a b
+            if np > 300 then true else
+            let model := tracesAff mode M go ge a b (affLookup (fillAff mode M go ge a b)) np
+            model.length == np && alns.all fun o => match o with
+              | some aln => model.contains aln
+              | none => false
         s!"ok n={n} valid={count valid} scored={count scored} sound={count sound} " ++
         s!"distinct={if distinctNonEmpty ts then 1 else 0} count={if ts.length ≤ mx then 1 else 0} " ++
         s!"model={if modelOk then 1 else 0}"
